@@ -294,7 +294,7 @@ def exon_scan(chk, repo, rid):
     # one specialised copy of the function per strand (E10: the strand expression replaced by +1 / -1 and folded): a scan written
     # once and parametrised by the strand reads, per strand, like the plain scan
     from sa.canon import normal_form as _normal_form, literal_constants as _lit_consts
-    strand_exprs = {unparse(c.left) for c in ast.walk(f.node) if isinstance(c, ast.Compare) and re.fullmatch(r'(?:.*\.)?strand', unparse(c.left))}
+    strand_exprs = {unparse(c) for c in ast.walk(f.node) if isinstance(c, (ast.Name, ast.Attribute)) and isinstance(c.ctx, ast.Load) and re.fullmatch(r'(?:.*\.)?strand', unparse(c))}
     if not strand_exprs:
         chk.undecided(rid, 'exon scans of find_exon_index', f.where, 'no comparison of the transcript strand found', key=f"{f.qual}::strands", fn=f.qual)
         return
@@ -302,7 +302,8 @@ def exon_scan(chk, repo, rid):
     for sv in (1, -1):
         # specialise the source form, then take its normal form (locals that became single-assignment are expanded, operator.gt /
         # operator.lt calls become comparisons)
-        sp = _normal_form(sem.specialise(f.node, {t: sv for t in strand_exprs}), _lit_consts(f.module.tree), flow=True)
+        sp = _normal_form(sem.specialise(f.node, lambda t, sv=sv: sv if (t == 'strand' or t.endswith('.strand')) else None, tables=sem.module_tables(f.module)),
+                          _lit_consts(f.module.tree), flow=True)
         for lp in [l for l in ast.walk(sp) if isinstance(l, ast.For) and isinstance(l.iter, ast.Call) and call_name(l.iter) == 'enumerate'
                    and isinstance(l.target, ast.Tuple) and len(l.target.elts) == 2 and all(isinstance(e, ast.Name) for e in l.target.elts)]:
             per_strand.append((sv, sp, lp))
